@@ -16,6 +16,9 @@ checks = {
  "C10": ("exploration", EX + " (reference well-formedness R-wf)", "All environments of <= 2/3 definitions over the enumerated type space and all annotation types in signature/process/cut positions: accepted iff well-formed; Unfold of accepted names terminates."),
  "C11": ("exploration", "bounded-exhaustive enumeration of character strings, token strings and corpus edits; deterministic fuel as the promptness measure", "Every enumerated text makes ParseString return (no panic, no blocked error channel) within a fuel bound linear in its length, with a program or a non-empty error."),
  "C12": ("exploration", EX + " (independent tokenizer + Earley recognizer R-gram)", "Every enumerated text the real parser accepts is a sentence of the reference grammar with the same declarations; every illegal-character insertion is rejected."),
+ "C13": ("exploration", "separate free-running pass of the same driver programs in an uninstrumented -race build (the cooperative scheduler hides races); programs x modes x monitor x GOMAXPROCS enumerated exhaustively, schedules not", "Go race detector over every driver program in all configurations, including the post-run API calls; complements the model-checking passes, whose atomic-block assumption it discharges."),
+ "C18": ("exploration", "complete enumeration of the flag product (240 vectors) x file classes on the real binary", "Every flag vector on every file class: exit status, absence of program output when nothing may run, one diagnostic, no panic trace."),
+ "C19": ("model_checking", MC + "; operation-sequence BFS (histories) with residual tasks kept schedulable; differential oracle against a fresh process", "All histories up to the stated length inside one scheduler instance, all schedules with delay <= 1: each run's verdict/prints/panics equal those of the program alone in a fresh process; leftovers never print during later runs."),
  "C14": ("model_checking", MC + "; differential oracle over all admissible renamings/permutations (E-ren)", "Every admissible renaming and declaration permutation of every driver program: same verdict; same outcomes (printed multiset, completion) on the explored schedules of both polarized modes."),
  "C15": ("exploration", "bounded-exhaustive enumeration of types; print/parse round trip compared structurally", "Every well-formed type of the enumerated space, under every head mode: parse(print(T)) is structurally T (modes and branch order included); no two different types print identically."),
  "C16": ("exploration", EX + " (reference mode inference R-infer; permutation/annotation invariance)", "Every accepted environment of the enumerated space: all nodes carry one of the four modes, equal to the reference inference; verdict and modes invariant under all declaration permutations and explicit annotation."),
@@ -41,9 +44,6 @@ for i in built:
 props = [json.loads(l)["id"] for l in open(os.path.join(V, "properties.jsonl"))]
 pending = {
  "C04": "check under construction (reference semantics R-sem); will be claimed once it runs clean",
- "C13": "check under construction (free-running -race pass over the driver corpus)",
- "C18": "check under construction (flag-matrix driver on the real binary)",
- "C19": "check under construction (history BFS inside one scheduler instance)",
 }
 for p in props:
     if p not in checks:
